@@ -7,8 +7,8 @@
 M = []
 
 
-def m(id_, prop, file, old, new, expect):
-    M.append({"id": id_, "prop": prop, "file": file, "old": old, "new": new, "expect": expect})
+def m(id_, prop, file, old, new, expect, also=None):
+    M.append({"id": id_, "prop": prop, "file": file, "old": old, "new": new, "expect": expect, "also": also or []})
 
 
 # ---------------- C03 ----------------
@@ -333,3 +333,62 @@ m("c15-benign-extra-lock-leaf", "C15", "nomt/src/beatree/mod.rs",
   "    fn finish_sync(shared: &Arc<RwLock<Shared>>, bbn_index: Index) {\n        // Take the shared lock again to complete the update to the new shared state\n        let mut shared = shared.write();\n",
   "    fn finish_sync(shared: &Arc<RwLock<Shared>>, bbn_index: Index) {\n        // Take the shared lock again to complete the update to the new shared state\n        let mut shared = shared.write();\n        let _tracked = shared.leaf_store.all_tracked_freelist_pages();\n",
   None)  # Tree.shared -> allocator Store.sync: a new order pair but no cycle (the allocator guard is released pre-meta): silent
+
+# ---------------- behaviour-preserving refactors: every check must stay silent -------------------
+m("benign-root-check-helper", "C12", "nomt/src/lib.rs",
+  "        {\n            let mut shared = nomt.shared.lock();\n            if shared.root != self.prev_root {\n                anyhow::bail!(\n                    \"Changeset no longer valid (expected previous root {:?}, got {:?})\",\n                    self.prev_root,\n                    shared.root\n                );\n            }\n            shared.root = Root(self.merkle_output.root);\n            shared.last_commit_marker = None;\n        }\n\n        if let Some(rollback_delta) = self.rollback_delta {\n            // UNWRAP: if rollback_delta is `Some`, then rollback must be also `Some`.\n            let rollback = nomt.store.rollback().unwrap();\n            if let Err(e) = rollback.commit(rollback_delta) {",
+  "        {\n            let mut shared = nomt.shared.lock();\n            ensure_base(&shared, &self.prev_root)?;\n            shared.root = Root(self.merkle_output.root);\n            shared.last_commit_marker = None;\n        }\n\n        if let Some(rollback_delta) = self.rollback_delta {\n            // UNWRAP: if rollback_delta is `Some`, then rollback must be also `Some`.\n            let rollback = nomt.store.rollback().unwrap();\n            if let Err(e) = rollback.commit(rollback_delta) {",
+  None,
+  also=[("nomt/src/lib.rs", "fn compute_root_node<H: HashAlgorithm>(", "fn ensure_base(shared: &Shared, prev_root: &Root) -> anyhow::Result<()> {\n    if shared.root != *prev_root {\n        anyhow::bail!(\"Changeset no longer valid (expected previous root {:?}, got {:?})\", prev_root, shared.root);\n    }\n    Ok(())\n}\n\nfn compute_root_node<H: HashAlgorithm>(")])
+m("benign-match-instead-of-question-mark", "C04", "nomt/src/bitbox/writeout.rs",
+  "    wal_fd.write_all(wal_blob)?;\n    wal_fd.sync_all()?;\n    Ok(())",
+  "    wal_fd.write_all(wal_blob)?;\n    match wal_fd.sync_all() {\n        Ok(()) => Ok(()),\n        Err(e) => Err(e),\n    }",
+  None)
+m("benign-match-instead-of-question-mark-c14", "C14", "nomt/src/bitbox/writeout.rs",
+  "    wal_fd.write_all(wal_blob)?;\n    wal_fd.sync_all()?;\n    Ok(())",
+  "    wal_fd.write_all(wal_blob)?;\n    match wal_fd.sync_all() {\n        Ok(()) => Ok(()),\n        Err(e) => Err(e),\n    }",
+  None)
+m("benign-sync-helper", "C04", "nomt/src/store/meta.rs",
+  "        fd.write_all_at(&page[..], 0)?;\n        fd.sync_all()?;\n        Ok(())\n    }",
+  "        fd.write_all_at(&page[..], 0)?;\n        Self::flush(fd)\n    }\n\n    fn flush(fd: &File) -> std::io::Result<()> {\n        fd.sync_all()?;\n        Ok(())\n    }",
+  None)
+m("benign-sync-helper-c03", "C03", "nomt/src/store/meta.rs",
+  "        fd.write_all_at(&page[..], 0)?;\n        fd.sync_all()?;\n        Ok(())\n    }",
+  "        fd.write_all_at(&page[..], 0)?;\n        Self::flush(fd)\n    }\n\n    fn flush(fd: &File) -> std::io::Result<()> {\n        fd.sync_all()?;\n        Ok(())\n    }",
+  None)
+m("benign-logging-in-sync", "C03", "nomt/src/store/sync.rs",
+  "        bitbox_sync.wait_pre_meta()?;\n        let beatree_meta_wd = beatree_sync.wait_pre_meta()?;\n",
+  "        bitbox_sync.wait_pre_meta()?;\n        let beatree_meta_wd = beatree_sync.wait_pre_meta()?;\n        let _elapsed = std::time::Instant::now();\n",
+  None)
+m("benign-post-meta-reorder", "C03", "nomt/src/store/sync.rs",
+  "        bitbox_sync.post_meta(shared.io_pool.make_handle())?;\n        beatree_sync.post_meta();\n",
+  "        beatree_sync.post_meta();\n        bitbox_sync.post_meta(shared.io_pool.make_handle())?;\n",
+  None)
+m("benign-post-meta-reorder-c17", "C17", "nomt/src/store/sync.rs",
+  "        bitbox_sync.post_meta(shared.io_pool.make_handle())?;\n        beatree_sync.post_meta();\n",
+  "        beatree_sync.post_meta();\n        bitbox_sync.post_meta(shared.io_pool.make_handle())?;\n",
+  None)
+m("benign-truncate-with-if-let", "C09", "nomt/src/rollback/mod.rs",
+  "        let mut in_memory = self.shared.in_memory.lock();\n        if n > in_memory.total_len() {\n            return Ok(None);\n        }\n",
+  "        let mut in_memory = self.shared.in_memory.lock();\n        let available = in_memory.total_len();\n        if available < n {\n            return Ok(None);\n        }\n",
+  None)
+m("benign-lock-scope-shorter", "C15", "nomt/src/rollback/mod.rs",
+  "        let mut in_memory = self.shared.in_memory.lock();\n        let seglog = self.shared.seglog.lock();\n\n        let pending_truncate = in_memory.pending_truncate.take();\n",
+  "        let mut in_memory = self.shared.in_memory.lock();\n        let pending_truncate = in_memory.pending_truncate.take();\n        let seglog = self.shared.seglog.lock();\n",
+  None)
+m("benign-verify-early-return-style", "C08", "core/src/proof/path_proof.rs",
+  "        if new_root == root {\n            Ok(VerifiedPathProof {\n                key_path: relevant_path.into(),\n                terminal: match &self.terminal {\n                    PathProofTerminal::Leaf(leaf_data) => Some(leaf_data.clone()),\n                    PathProofTerminal::Terminator(_) => None,\n                },\n                siblings: self.siblings.clone(),\n                root,\n            })\n        } else {\n            Err(PathProofVerificationError::RootMismatch)\n        }",
+  "        if new_root != root {\n            return Err(PathProofVerificationError::RootMismatch);\n        }\n        Ok(VerifiedPathProof {\n            key_path: relevant_path.into(),\n            terminal: match &self.terminal {\n                PathProofTerminal::Leaf(leaf_data) => Some(leaf_data.clone()),\n                PathProofTerminal::Terminator(_) => None,\n            },\n            siblings: self.siblings.clone(),\n            root,\n        })",
+  None)
+m("benign-verify-early-return-style-c18", "C18", "core/src/proof/path_proof.rs",
+  "        if new_root == root {\n            Ok(VerifiedPathProof {\n                key_path: relevant_path.into(),\n                terminal: match &self.terminal {\n                    PathProofTerminal::Leaf(leaf_data) => Some(leaf_data.clone()),\n                    PathProofTerminal::Terminator(_) => None,\n                },\n                siblings: self.siblings.clone(),\n                root,\n            })\n        } else {\n            Err(PathProofVerificationError::RootMismatch)\n        }",
+  "        if new_root != root {\n            return Err(PathProofVerificationError::RootMismatch);\n        }\n        Ok(VerifiedPathProof {\n            key_path: relevant_path.into(),\n            terminal: match &self.terminal {\n                PathProofTerminal::Leaf(leaf_data) => Some(leaf_data.clone()),\n                PathProofTerminal::Terminator(_) => None,\n            },\n            siblings: self.siblings.clone(),\n            root,\n        })",
+  None)
+m("benign-flock-match-style", "C20", "nomt/src/store/flock.rs",
+  "        match crate::sys::unix::try_lock_exclusive(&lock_fd) {\n            Ok(_) => Ok(Self { lock_fd }),\n            Err(e) => {\n                anyhow::bail!(\"Failed to lock directory: {e}\");\n            }\n        }",
+  "        if let Err(e) = crate::sys::unix::try_lock_exclusive(&lock_fd) {\n            anyhow::bail!(\"Failed to lock directory: {e}\");\n        }\n        Ok(Self { lock_fd })",
+  None)
+m("benign-poison-helper-use", "C14", "nomt/src/store/mod.rs",
+  "            self.shared\n                .poisoned\n                .store(true, std::sync::atomic::Ordering::Relaxed);\n            return Err(e);",
+  "            self.poison();\n            return Err(e);",
+  None)
